@@ -81,4 +81,105 @@ theorem resolveUnparsed_own (docs : Nat → Ptr → Option (List Ref)) (n : Nat)
       · exact ih st1 st' h ht1
       · cases h; exact ht1
 
+/-! ### base-path contexts -/
+
+theorem crun_append (s : CState) (a b : List COp) : crun s (a ++ b) = crun (crun s a) b := by
+  induction a generalizing s with
+  | nil => rfl
+  | cons op a ih => simp only [List.cons_append, crun]; exact ih _
+
+theorem cstep_resolve_state (s : CState) (r : List Char) : (cstep s (.resolve r)).1 = s := rfl
+
+/-- erasing the `resolve_ref` calls from a history does not change the state it leads to -/
+theorem crun_filter (ops : List COp) : ∀ s : CState, crun s (ops.filter (fun o => !o.isResolve)) = crun s ops := by
+  induction ops with
+  | nil => intro s; rfl
+  | cons op ops ih =>
+    intro s
+    cases op with
+    | resolve r => simp only [COp.isResolve, Bool.not_true, List.filter_cons, crun]; exact ih s
+    | enter p => simp only [COp.isResolve, Bool.not_false, List.filter_cons, crun]; exact ih _
+    | exit => simp only [COp.isResolve, Bool.not_false, List.filter_cons, crun]; exact ih _
+
+/-- the stack of base paths: current one first, then the saved ones -/
+def stk (s : CState) : List (Option Dir) := s.cur :: s.saved
+
+theorem stk_inj {s s' : CState} (h : stk s = stk s') : s = s' := by
+  cases s; cases s'
+  simp only [stk, List.cons.injEq] at h
+  simp [h.1, h.2]
+
+/-- depth bookkeeping of a history: `none` when it leaves a context it did not enter -/
+def nest : Nat → List COp → Option Nat
+  | d, [] => some d
+  | d, .enter _ :: ops => nest (d + 1) ops
+  | 0, .exit :: _ => none
+  | d + 1, .exit :: ops => nest d ops
+  | d, .resolve _ :: ops => nest d ops
+
+theorem crun_nested (body : List COp) : ∀ (d d' : Nat) (top rest : List (Option Dir)) (s : CState),
+    rest ≠ [] → stk s = top ++ rest → top.length = d → nest d body = some d' →
+    ∃ top', stk (crun s body) = top' ++ rest ∧ top'.length = d' := by
+  induction body with
+  | nil =>
+    intro d d' top rest s _ hs hl hn
+    simp only [nest, Option.some.injEq] at hn
+    exact ⟨top, hs, by omega⟩
+  | cons op body ih =>
+    intro d d' top rest s hr hs hl hn
+    cases op with
+    | resolve r =>
+      simp only [nest] at hn
+      exact ih d d' top rest s hr hs hl hn
+    | enter p =>
+      simp only [nest] at hn
+      refine ih (d + 1) d' ((p.bind (fun p => resolveFile [] (splitOn '/' p))) :: top) rest _ hr ?_ (by simp [hl]) hn
+      simp only [cstep, stk, List.cons_append]
+      congr 1
+    | exit =>
+      cases d with
+      | zero => simp [nest] at hn
+      | succ d =>
+        simp only [nest] at hn
+        cases top with
+        | nil => simp at hl
+        | cons t top0 =>
+          have hl0 : top0.length = d := by simpa using hl
+          simp only [stk, List.cons_append, List.cons.injEq] at hs
+          refine ih d d' top0 rest _ hr ?_ hl0 hn
+          simp only [cstep]
+          cases hsv : s.saved with
+          | nil =>
+            rw [hsv] at hs
+            have := hs.2
+            cases top0 with
+            | nil => simp at this; exact absurd this hr
+            | cons _ _ => simp at this
+          | cons prev more =>
+            rw [hsv] at hs
+            simp only [stk]
+            exact hs.2
+
+theorem plain_push (acc : List Seg) (x : Seg) (h : plainSeg x = true) : normPush (some acc) x = some (x :: acc) := by
+  simp only [plainSeg, Bool.and_eq_true, Bool.not_eq_true', beq_eq_false_iff_ne, ne_eq] at h
+  obtain ⟨⟨h1, h2⟩, h3⟩ := h
+  simp [normPush, h1, h2, h3]
+
+theorem foldl_normPush_plain (segs : List Seg) : ∀ acc : List Seg, segs.all plainSeg = true →
+    segs.foldl normPush (some acc) = some (segs.reverse ++ acc) := by
+  induction segs with
+  | nil => intro acc _; rfl
+  | cons x xs ih =>
+    intro acc h
+    simp only [List.all_cons, Bool.and_eq_true] at h
+    simp only [List.foldl_cons, plain_push acc x h.1]
+    rw [ih (x :: acc) h.2]
+    simp
+
+theorem resolveFile_plain (cur : Dir) (file : List Seg) (hc : cur.all plainSeg = true) (hf : file.all plainSeg = true) :
+    resolveFile cur file = some (cur ++ file) := by
+  unfold resolveFile
+  rw [foldl_normPush_plain (cur ++ file) [] (by simp [List.all_append, hc, hf])]
+  simp
+
 end Dcg.Proofs.ResolverMultidoc
